@@ -12,6 +12,9 @@ pub enum HOp {
     AdvPeek0,
     SetOffset(usize),
     SetMode(usize),
+    /// `advance_to(p)` with an arbitrary position (documented: beyond the end stops at the end,
+    /// behind the current position does not move)
+    AdvanceTo(usize),
 }
 
 impl HOp {
@@ -22,6 +25,7 @@ impl HOp {
             HOp::AdvPeek0 => "advance_to(end of the first match of peek_n(1))".into(),
             HOp::SetOffset(o) => format!("set_offset({o})"),
             HOp::SetMode(m) => format!("set_mode({m})"),
+            HOp::AdvanceTo(p) => format!("advance_to({p})"),
         }
     }
 }
@@ -38,6 +42,14 @@ pub fn alphabet(input: &str, n_modes: usize) -> Vec<HOp> {
     for m in 0..n_modes {
         v.push(HOp::SetMode(m));
     }
+    // advance_to with every boundary (backwards ones included) and a position beyond the end
+    let mut b = 0;
+    v.push(HOp::AdvanceTo(0));
+    for c in input.chars() {
+        b += c.len_utf8();
+        v.push(HOp::AdvanceTo(b));
+    }
+    v.push(HOp::AdvanceTo(input.len() + 1));
     v
 }
 
@@ -129,6 +141,12 @@ pub fn safety_history(sc: &Scanner, input: &str, hist: &[HOp], tokens_seen: &mut
                     it.set_mode(*m);
                     // a different mode may match where the old one did not
                     exhausted = false;
+                }
+                HOp::AdvanceTo(p) => {
+                    let r = it.advance_to(*p);
+                    if r > input.len() {
+                        return (Some(format!("op #{i} {}: returned position {r} beyond the input length {}", op.show(), input.len())), n_tok);
+                    }
                 }
             }
         }
